@@ -23,6 +23,10 @@ TRUSTED = [
     "float64 rounding and the interior of threshold bands are explored by the monitors, not proved (DESIGN.md §6)",
 ]
 
+# traced configurations the translator is known not to follow on the pinned tree (path explosion of the interpolation
+# helpers / a float() escape in UnitQuaternion.interp): they have no generated model and are covered by the monitors only
+EXPECTED_UNTRANSLATABLE = {'trinterp_T', 'trinterp_T_nostart', 'trinterp_R', 'UQ_interp', 'UQ_interp_shortest'}
+
 def load_known():
     if not os.path.exists(KNOWN): return []
     return json.load(open(KNOWN)).get('findings', [])
@@ -76,9 +80,20 @@ def main(argv=None):
             cov['translated_functions'] = sum(1 for r in report.values() if r['ok'])
             untrans = {k: v['error'] for k, v in report.items() if not v['ok']}
             cov['untranslatable'] = untrans
-            unexpected = {k: v for k, v in untrans.items() if k not in spec.get('expected_untranslatable', ()) and report[k]['group'] in spec.get('groups', ())}
+            unexpected = {k: v for k, v in untrans.items() if k not in EXPECTED_UNTRANSLATABLE and k not in spec.get('expected_untranslatable', ()) and report[k]['group'] in spec.get('groups', ())}
             if unexpected:
                 broken.append(dict(kind='translator', what=f"translator cannot follow the code: {unexpected}"))
+            for aux in spec.get('aux_translators', ()):
+                ar = report.get(aux, {})
+                if not ar.get('ok'):
+                    broken.append(dict(kind='translator', what=f"auxiliary translator {aux} failed: {ar.get('error')}"))
+                if ar.get('untranslated'):
+                    broken.append(dict(kind='translator', what=f"symbolic path no longer translates: {ar['untranslated']}"))
+                if ar.get('violations'):
+                    cov['alias_checker_rejects'] = ar['violations'][:20]
+                    for (fn, var, par) in ar['violations'][:6]:
+                        broken.append(dict(kind='alias', function=fn, what=f"alias analysis: {fn} may write through `{var}` into the buffer of its parameter `{par}`"))
+                cov[aux.strip('_') + '_functions'] = ar.get('paths')
             # ---- 2. lake build of the property's theorems ---------------------------------
             if not args.no_lean:
                 targets = list(spec['lean_modules']) + ['SmVerif.Gen.Registry']
